@@ -58,6 +58,8 @@ def observe(da, dt, pool, refused):
     shape = [int(x) for x in da.shape]
     data = da[:] if all(shape) or True else None
     cells = from_np(dt, data, pool)
+    if list(np.shape(data)) != shape:
+        return [bool(refused), shape, cells, 95]       # the whole read does not have the shape the array reports
     extra_ok = (len(da) == shape[0]) and (int(da.size) == int(np.prod(shape))) and list(da.data_extent) == shape
     if all(shape):
         buf = np.empty(shape, dtype=object if dt == "text" else (np.bool_ if dt == "bool" else dt))
